@@ -371,6 +371,6 @@ def run(tier, seed, replay=None):
     # the mixed sparse/dense products used by the solvers: base.gemv / symv / gemm / syrk / axpy (incl. partial=True), specified in Blas.tla
     # (SPGEMV, SPSYMV, SPGEMM, SPSYRK, SPAXPY) on dense images; random calls run in crash-isolated children and TLC decides every call
     from harness.checks import c17
-    ncalls = c17.run_base_products(ck, seed, 60 if quick else 2500)
+    ncalls = c17.run_base_products(ck, seed, 60 if quick else 1000)
     ck.traces += ncalls
     ck.finish()
